@@ -108,7 +108,8 @@ func execC16(c C16Case) *Failure {
 			prompts++
 			continue
 		case "regresource":
-			w.Register(r, RegSpec{Resources: []ResSpec{{URI: fmt.Sprintf("file:///r%d", seq), Name: "r"}}})
+			// registered with a single-content or a multi-content handler (RegisterResource / RegisterResources), alternately
+			w.Register(r, RegSpec{Resources: []ResSpec{{URI: fmt.Sprintf("file:///r%d", seq), Name: "r", Multi: i%2 == 0}}})
 			resources++
 			continue
 		}
